@@ -387,6 +387,19 @@ func (d *DryRun) allFindings() []Finding {
 	return out
 }
 
+// dryHist renders a history of the C05 alphabet (HistString plus the trace index of stress-relief deliveries).
+func dryHist(h []Ev) string {
+	var p []string
+	for _, e := range h {
+		if e.Op == "imm" {
+			p = append(p, fmt.Sprintf("imm(%d,%s)", e.T, e.K))
+		} else {
+			p = append(p, e.String())
+		}
+	}
+	return strings.Join(p, " ")
+}
+
 // Exec replays h under both observers.
 func (ds *DryScenario) Exec(r *ev.Run, h []Ev) (string, string, *seqx.Failure) {
 	run := ds.NewDryRun()
@@ -421,7 +434,7 @@ func (ds *DryScenario) Exec(r *ev.Run, h []Ev) (string, string, *seqx.Failure) {
 	outcome := run.outcome()
 	var fail *seqx.Failure
 	if fs := run.allFindings(); len(fs) > 0 {
-		fail = &seqx.Failure{Sig: fs[0].Class, What: fs[0].What + "  [history: " + HistString(h) + "]"}
+		fail = &seqx.Failure{Sig: fs[0].Class, What: fs[0].What + "  [history: " + dryHist(h) + "]"}
 	}
 	return canon, outcome, fail
 }
@@ -617,7 +630,7 @@ func DryScenarios(r *ev.Run) []*DryScenario {
 	}
 	out := []*DryScenario{
 		mk(&Scenario{Name: "dry-det-w1", Workers: 1, IDs: w1[:2], Kinds: rc, Samplers: []func() any{det(2), det(1)}, KeptPerWorker: 4,
-			Traces: traces, Advances: advances, EjectBytes: []int{-1, 0}, Depth: q(7, 8), MaxSpansPerTrace: 3, MaxAdv: 2, MaxReloads: 1}),
+			Traces: traces, Advances: advances, EjectBytes: []int{-1, 0}, Depth: q(6, 8), MaxSpansPerTrace: 3, MaxAdv: 2, MaxReloads: 1}),
 		mk(&Scenario{Name: "dry-det-w2", Workers: 2, IDs: w2, Kinds: rc, Samplers: []func() any{det(2), det(1)}, KeptPerWorker: 4,
 			Traces: traces, Advances: advances[:1], EjectBytes: []int{-1}, Depth: q(5, 6), MaxSpansPerTrace: 2, MaxAdv: 1, MaxReloads: 1}),
 		mk(&Scenario{Name: "dry-rules-root-w1", Workers: 1, IDs: w1[:2], Kinds: rc, Samplers: []func() any{rulesRoot}, KeptPerWorker: 4,
